@@ -24,6 +24,13 @@ impl std::ops::Rem for &Primitive {
             _ => (),
         }
 
+        // the one operation on MIN that does not fit its kind: Rust's integer `/` and `%` abort on it
+        if let (Int(i32::MIN), Int(-1)) | (BigInt(i128::MIN), Int(-1)) | (BigInt(i128::MIN), BigInt(-1)) =
+            (self, rhs)
+        {
+            bail!("attempt to calculate the remainder with overflow")
+        }
+
         let (t1, t2) = (&self, &rhs);
 
         let math = apply_math_bin_op_if_applicable!(t1 % t2);
